@@ -1,4 +1,4 @@
-//go:build verif
+//go:build verif && (p_all || p_c16)
 
 package props
 
@@ -14,6 +14,7 @@ import (
 	"regexp"
 	"runtime"
 	"sort"
+	"strconv"
 	"strings"
 	"sync"
 	"time"
@@ -32,6 +33,22 @@ import (
 // in Go's memory model those would add happens-before edges and hide races between the calls they bracket.
 
 func init() {
+	Commands["racecanary"] = func([]string) int { return C16Canary() }
+	Commands["raceload"] = func(a []string) int {
+		// raceload <seed> <goroutines> <iters> <out> [<concurrent-first>]
+		seed, _ := strconv.ParseUint(a[0], 10, 64)
+		g, _ := strconv.Atoi(a[1])
+		it, _ := strconv.Atoi(a[2])
+
+		return C16Load(seed, g, it, a[3], len(a) > 4 && a[4] == "true")
+	}
+	Commands["randstorm"] = func(a []string) int {
+		g, _ := strconv.Atoi(a[0])
+		n, _ := strconv.Atoi(a[1])
+
+		return C16RandStorm(g, n, a[2])
+	}
+
 	register(&mon.Prop{
 		ID:      "C16",
 		Flavour: "race",
